@@ -193,6 +193,34 @@ def rule_r3(chk, F):
             r.violation("%s:no-atomic-instruction" % p,
                         "%s emits %s — neither xchg nor a lock-prefixed instruction" % (nm, asmcalls), b["file"])
     r.floor("masm RMW routines", n_rmw, 6)
+    # operand size: a routine named for one width uses that width's instruction forms (size letter of the dora_asm
+    # mnemonic: b/l/q) — `exchange_int64_synchronized` built from `xchgl` would swap the low word only
+    import re as _re
+    size_of = {"int8": "b", "int32": "l", "int64": "q"}
+    n_w = 0
+    for p, b in sorted(cc.hir.items()):
+        nm = last(p)
+        if not nm.endswith("_synchronized") or "masm::x64" not in p:
+            continue
+        m = _re.search(r"_(int8|int32|int64)_synchronized$", nm)
+        if not m:
+            continue
+        want = size_of[m.group(1)]
+        for x in hirq.calls(b["body"]):
+            if not (x.callee and x.callee.startswith(X)):
+                continue
+            mm = _re.match(r"^(?:lock_)?[a-z]+?([blq])_[a-z]+$", x.name)
+            if not mm:
+                continue
+            n_w += 1
+            r.instance("masm::%s:%s:size" % (nm, x.name), sample={"routine": nm, "instruction": x.name,
+                                                                 "size": mm.group(1), "expected": want})
+            if mm.group(1) != want and not (want == "b" and mm.group(1) == "l" and x.name.startswith(("movzx", "movl_rr"))):
+                r.violation("%s:%s:operand-size" % (p, x.name),
+                            "%s uses the `%s` form %s: the atomic operation is performed at another width than the "
+                            "routine's name (and its callers) say" % (nm, mm.group(1), x.name),
+                            "%s:%d" % (b["file"], x.line))
+    r.floor("sized instructions in the x64 atomic routines", n_w, 12)
     for p, b in sorted(cc.hir.items()):
         nm = last(p)
         if nm.startswith("store_") and nm.endswith("_synchronized") and "masm::x64" in p:
